@@ -549,9 +549,15 @@ def whole_runs(ctx, binary, label, env=None, timeout=240):
 
     def report(name, what, param, cmd, res, aux=None, key=None):
         stats["failed"] += 1
-        rep = {"run": name, "binary": label, "param": param, "cmd": cmd, "aux_files": aux or {}, "log_tail": res["log"][-1800:]}
+        tail = res["log"][-1800:]
+        # keep the replay file (and its name) the same from run to run
+        for pat, sub in ((r"\d\d:\d\d:\d\d", "hh:mm:ss"), (r"/tmp/verif_\w+", "/tmp/verif_X"), (r"\[\w+:\d+\]", "[pid]"), (r"==\d+==", "==pid=="),
+                         (r"0x[0-9a-f]{6,}", "0x.."), (r"\(\+0x[0-9a-f]+\)", "(+0x..)"), (r"\d+(\.\d+)?(e[-+]\d+)?\s?(s|ms|MB|KB|%)\b", "<n>")):
+            tail = re.sub(pat, sub, tail)
+        lines = [l for l in tail.split("\n") if re.search(r"rror|Sanitizer|ignal|free\(\)|corrupt|Assert|abort", l) and "[pid] [" not in l]
+        rep = {"run": name, "binary": label, "param": param, "cmd": cmd, "aux_files": aux or {}, "error_lines": lines[:4]}
         if "Sanitizer" in what or "runtime error" in what:
-            rep["sanitizer"] = san_summary(res["log"])
+            rep["sanitizer"] = re.sub(r"0x[0-9a-f]{6,}", "0x..", re.sub(r"==\d+==", "==pid==", san_summary(res["log"])))
         ctx.violation(key or ("run:%s:%s" % (label, name)), "%s [%s binary]: %s; command: %s" % (name, label, what, cmd), rep)
 
     def one(name, param, args, threads, expect, aux=None, source_outside=False, key=None):
